@@ -7,8 +7,10 @@ From BVA Require Import Base.Prelude Base.Result Base.Words Base.Limbs Model.Cor
 (* TryFrom<uT> for Bvf<I,N>; t = bits of T *)
 Definition f_from_uint (w n t x : N) : outcome wv :=
   if t <=? w then
-    (* data[0] = I::cast_from(int) : Rust indexes data[0], which needs N >= 1 *)
-    let! d := seto (zerosw n) 0 x in Ok (mkwv d t)
+    (* match data.first_mut() { Some(d) => *d = cast(int), None if int == 0 => (), None => Err };
+       length min(T::BITS, capacity): a type without storage words holds only the value 0 *)
+    if 0 <? n then Ok (mkwv (setw (zerosw n) 0 x) (N.min t (w * n)))
+    else if x =? 0 then Ok (mkwv (zerosw n) (N.min t (w * n))) else Err ECap
   else
     if w * n <? N.size x then Err ECap
     else
